@@ -14,12 +14,12 @@ PKG=./$(dirname $DP)/
 cp $DEMO $WT/$DP
 RUN=$(grep -o 'func Test[A-Za-z0-9_]*' $DEMO | head -1 | sed 's/func //')
 echo "demo $DP test $RUN pkg $PKG"
-go test -vet=off -count=1 -run "^$RUN" $PKG > /tmp/confirm-clean.log 2>&1; A=$?
+go test -vet=off -count=1 -run "^$RUN" $PKG > /tmp/confirm-$$-clean.log 2>&1; A=$?
 git apply $SRC/patch.diff || { echo "PATCH DOES NOT APPLY"; exit 3; }
-go build ./... > /tmp/confirm-build.log 2>&1; B=$?
-go test -vet=off -count=1 -run "^$RUN" $PKG > /tmp/confirm-patched.log 2>&1; C=$?
+go build ./... > /tmp/confirm-$$-build.log 2>&1; B=$?
+go test -vet=off -count=1 -run "^$RUN" $PKG > /tmp/confirm-$$-patched.log 2>&1; C=$?
 rm -f $WT/$DP
-go test -vet=off -count=1 ./... > /tmp/confirm-suite.log 2>&1; D=$?
+go test -vet=off -count=1 ./... > /tmp/confirm-$$-suite.log 2>&1; D=$?
 echo "clean_demo_rc=$A build_rc=$B patched_demo_rc=$C suite_rc=$D"
 if [ $A -eq 0 ] && [ $B -eq 0 ] && [ $C -ne 0 ] && [ $D -eq 0 ]; then echo CONFIRMED; exit 0; fi
-echo NOT-CONFIRMED; tail -5 /tmp/confirm-clean.log /tmp/confirm-patched.log; grep -v "^ok\|no test files" /tmp/confirm-suite.log | tail -10; exit 1
+echo NOT-CONFIRMED; tail -5 /tmp/confirm-$$-clean.log /tmp/confirm-$$-patched.log; grep -v "^ok\|no test files" /tmp/confirm-$$-suite.log | tail -10; exit 1
